@@ -168,9 +168,11 @@ func runWorker(ck *Check, tier Tier, w, n int, out, journal, skip string) (code 
 	res := workerOut{Stats: e.Stats}
 	defer func() {
 		if r := recover(); r != nil {
-			if _, ok := r.(HarnessError); !ok {
+			if he, ok := r.(HarnessError); !ok {
 				fmt.Fprintf(os.Stderr, "worker %d: panic: %v\n%s\n", w, r, debug.Stack())
 				e.Stats.HarnessErrors = append(e.Stats.HarnessErrors, fmt.Sprint(r))
+			} else {
+				fmt.Fprintf(os.Stderr, "worker %d: %v\n", w, he)
 			}
 			code = exitWorkerErr
 		}
